@@ -210,7 +210,11 @@ def main(argv):
     mod = importlib.import_module("rules.%s" % prop.lower())
     coverage = {
         "explanation": (getattr(mod, "EXPLANATION", "") + " Static analysis of the resolved MIR of /repo's current tree "
-                        "(smfacts fact base, tree hash %s, features ram_bundle%s); no code of the crate was executed."
+                        "(smfacts fact base, tree hash %s, features ram_bundle%s); no code of the crate was executed. "
+                        "Rules named RL add: the loops that must visit every element end only when their iterator is "
+                        "exhausted or with an error. All rules are evaluated on a normal form of the MIR (renamed or newly "
+                        "extracted private helpers mapped back / inlined, aliases, `?`, constants and simple closures "
+                        "canonicalised - DESIGN.md 8.6); normalisation steps applied to this tree are listed under remarks."
                         % (th, " + default" if tier == "thorough" else "")),
         "obligations": len(ctx.obligations),
         "discharged": len(held),
